@@ -73,6 +73,18 @@ Definition summary_ranges (latest : Z) (ds : list delta) : option ranges :=
 Definition mk_tx (like : tx) (date : Z) (a : action) (af : aff) : tx :=
   {| t_sec := t_sec like; t_td := date; t_sd := date; t_act := a; t_af := af; t_glob := false; t_ri := 0%N |}.
 
+(* The summary goes through write_txs_to_csv and parse_tx_csv (C11): the only
+   effect on the bookkeeping is that, when no row of the summary names an
+   affiliate other than the default one, the affiliate column is omitted and
+   a split of the default affiliate is read back as a split of all affiliates. *)
+Definition through_csv (sums : list tx) : list tx :=
+  if forallb (fun t => N.eqb (af_id (t_af t)) default_id) sums
+  then map (fun t => if is_split (t_act t)
+                     then {| t_sec := t_sec t; t_td := t_td t; t_sd := t_sd t; t_act := t_act t;
+                             t_af := t_af t; t_glob := true; t_ri := t_ri t |}
+                     else t) sums
+  else sums.
+
 (* rows of the original history settling after the date *)
 Definition rows_after (latest : Z) (txs : list tx) : list tx := filter (fun t => latest <? t_sd t) txs.
 
@@ -266,7 +278,7 @@ Section WithArith.
   Definition roundtrip_of (latest : Z) (annual : bool) (rows : list tx) (ds : list delta) : bool :=
     match make_summary latest ds annual with
     | Ok sums =>
-        let '(ds2, o2) := sec_run (number_from 0 (sums ++ rows_after latest rows)) in
+        let '(ds2, o2) := sec_run (number_from 0 (through_csv sums ++ rows_after latest rows)) in
         match o2 with
         | None => same_reports (later_deltas latest ds) (later_deltas latest ds2)
         | Some _ => false
